@@ -9,6 +9,23 @@ W_FMT = re.compile(r'dst\.write_fmt\(let args = \((\w+)\); let args = \[Argument
 W_VEC = re.compile(r"Ok\(dst\.extend\((\w+)(?:\.to_string\(\))?\)\)")
 
 
+def _step_arms(fn):
+    """{Step variant: (bound pattern text, arm body node)} of the closure handed to self.exec(..) in fn."""
+    for nd in H.walk(fn["body"]):
+        if nd.get("k") == "Match":
+            arms = {}
+            for a in nd["arms"]:
+                for v in H.arm_variants(a, "Step"):
+                    arms[v] = (H.pat_canon(a["pat"]), a)
+            if len(arms) >= 3:
+                return arms
+    return {}
+
+
+def _opt_paths(ctx_paths, scrut_pat):
+    return None
+
+
 def writers_agree(run, ctx):
     fam, label = "EXPAND", "writers"
     a = S.find_fn(ctx, "expand::Expander::write_expansion")
@@ -16,18 +33,62 @@ def writers_agree(run, ctx):
     if not b:
         run.violation(fam, label, "anchor-missing/vec", "src/expand.rs", "anchor-missing: Expander::write_expansion_vec")
         return
-    cb = W_VEC.sub(lambda m: "W(%s)" % m.group(1), H.canon(b[0]["body"]))
-    want = ("self.exec({t},|{st}| match {st} {Step::Char({c}) => W({c}); "
-            "Step::GroupName({nm}) => if let Some({m}) = {caps}.name({nm}) {W({m})} else {if let Some({m2}) = {nm}.parse().ok().and_then(|{k}| {caps}.get({k})) {W({m2})} else {Ok(())}}; "
-            "Step::GroupNum({num}) => if let Some({m3}) = {caps}.get({num}) {W({m3})} else {Ok(())}; Step::Error => Ok(())})")
     n = 1
-    if not H.pat_match(want, cb):
-        run.violation(fam, label, "vec-shape", H.where(b[0]), "write_expansion_vec: `$name` inserts the named group (or, failing that, the group whose number the name spells), `$N` the numbered group, absent groups nothing, a malformed reference nothing beyond the literal `$`; found %s" % cb[:300])
+    what = "`$name` inserts the named group (or, failing that, the group whose number the name spells), `$N` the numbered group, absent groups nothing, a malformed reference nothing beyond the literal `$`"
+
+    def outcomes(fn, wrx):
+        """per Step variant: set of (decisions, written value) over the paths of its arm; W(x) = the write primitive"""
+        arms = _step_arms(fn)
+        out = {}
+        for v, (pat, arm) in arms.items():
+            res = set()
+            for p in S.paths_of(arm["body"]):
+                if p.exit == "try-err":
+                    continue
+                val = wrx.sub(lambda m: "W(%s)" % m.group(1), p.val or "")
+                writes = [wrx.sub(lambda m: "W(%s)" % m.group(1), ev.a) for ev in p.events if ev.kind == "call" and wrx.search(ev.a or "")]
+                dec = []
+                for i_, kind, bound in S.opt_outcomes(p, "{*x}"):
+                    ev = p.events[i_]
+                    scr = ev.b if ev.kind in ("letcond", "let", "let-else") else ev.a
+                    dec.append((scr, kind, re.sub(r"^\w+\((\w+)\)$", r"\1", bound or "")))
+                # name the bound variables positionally
+                names = {}
+                for di, (_, _, bnd) in enumerate(dec):
+                    if re.match(r"^\w+$", bnd or ""):
+                        names[bnd] = "m%d" % di
+                pm = re.match(r"^Step::\w+\((\w+)\)$", pat)
+                if pm:
+                    names[pm.group(1)] = "ARG"
+                ren = lambda t: re.sub(r"(?<![.\w])(%s)(?![\w(])" % "|".join(map(re.escape, names)), lambda m: names[m.group(1)], t) if names else t
+                res.add((tuple((ren(s_ or ""), k_) for s_, k_, _ in dec), ren(val), tuple(ren(w_) for w_ in writes if w_ != val)))
+            out[v] = res
+        return out
+
+    want = {
+        "Char": {((), "W(ARG)", ())},
+        "Error": {((), "Ok(())", ())},
+        "GroupNum": {((("captures.get(ARG)", "some"),), "W(m0)", ()), ((("captures.get(ARG)", "none"),), "Ok(())", ())},
+        "GroupName": {((("captures.name(ARG)", "some"),), "W(m0)", ()),
+                      ((("captures.name(ARG)", "none"), ("ARG.parse().ok().and_then(|num| captures.get(num))", "some")), "W(m1)", ()),
+                      ((("captures.name(ARG)", "none"), ("ARG.parse().ok().and_then(|num| captures.get(num))", "none")), "Ok(())", ())},
+    }
+
+    def norm_clo(o):
+        # closure parameter names inside and_then(|x| ..) do not matter
+        out = {}
+        for v, res in o.items():
+            out[v] = {(tuple((re.sub(r"\|(\w+)\| captures\.get\(\1\)", "|num| captures.get(num)", s_), k_) for s_, k_ in dec), val, wr) for dec, val, wr in res}
+        return out
+    ob = norm_clo(outcomes(b[0], W_VEC))
+    if ob != want:
+        run.violation(fam, label, "vec-shape", H.where(b[0]), "write_expansion_vec: %s; found %s" % (what, {k: sorted(v) for k, v in ob.items() if want.get(k) != v} or ob))
     if a:
-        ca = W_FMT.sub(lambda m: "W(%s)" % m.group(1), H.canon(a[0]["body"]))
         n += 1
-        if not H.pat_match(want, ca):
-            run.violation(fam, label, "std-vs-vec", H.where(a[0]), "write_expansion (std) and write_expansion_vec (no-std) differ beyond the write primitive: %s  vs  %s" % (ca[:200], cb[:200]))
+        oa = norm_clo(outcomes(a[0], W_FMT))
+        if oa != ob:
+            diff = sorted(k for k in set(oa) | set(ob) if oa.get(k) != ob.get(k))
+            run.violation(fam, label, "std-vs-vec", H.where(a[0]), "write_expansion (std) and write_expansion_vec (no-std) differ beyond the write primitive in the step kind(s) %s: %s  vs  %s" % (diff, [sorted(oa.get(k, [])) for k in diff], [sorted(ob.get(k, [])) for k in diff]))
     # expansion / append_expansion use them
     for name in ("expand::Expander::expansion", "expand::Expander::append_expansion"):
         fn = S.get_fn(run, ctx, name, fam, label)
@@ -62,12 +123,46 @@ def check_rule(run, ctx):
     OGN = mnum.group("ogn") if mnum else "on_group_num"
     if not mnum:
         run.violation(fam, label, "group-num", H.where(fn), "Expander::check: a numeric reference is acceptable only if it is 0, or the regex has no named groups and the number is below captures_len(); shape not found in %s" % c[:260])
-    want_exec = ("self.exec(%s,|{st}| match {st} {Step::Char(_) => Ok(()); "
-                 "Step::GroupName({nm}) => if %s.named_groups.contains_key({nm}) {Ok(())} else {if let Ok({k}) = {nm}.parse() {%s({k})} else {Err(Error::CompileError(CompileError::InvalidBackref))}}; "
-                 "Step::GroupNum({k2}) => %s({k2}); Step::Error => Err(" % (T, R, OGN, OGN))
+    # every step kind judged, arm by arm, path by path
+    arms = _step_arms(fn)
     n += 1
-    if not H.find_pat(c, want_exec):
-        run.violation(fam, label, "steps", H.where(fn), "Expander::check: every step kind must be judged (named reference must exist or be a valid number; malformed reference is an error); shape not found in %s" % c[:400])
+    bad = None
+    for v in ("Char", "GroupName", "GroupNum", "Error"):
+        if v not in arms:
+            bad = "no arm for Step::%s" % v
+            break
+        pat, arm = arms[v]
+        pm = re.match(r"^Step::\w+\((\w+)\)$", pat)
+        ARG = pm.group(1) if pm else None
+        for p in S.paths_of(arm["body"]):
+            if p.exit == "try-err":
+                continue
+            val = p.val or ""
+            if v == "Char":
+                ok = val == "Ok(())"
+            elif v == "Error":
+                ok = val.startswith("Err(")
+            elif v == "GroupNum":
+                ok = val == "%s(%s)" % (OGN, ARG)
+            else:
+                known = [ev.b for ev in p.events if ev.kind == "cond" and ev.a == "%s.named_groups.contains_key(%s)" % (R, ARG)]
+                num = S.opt_outcomes(p, "%s.parse()" % ARG)
+                if known and known[-1]:
+                    ok = val == "Ok(())"
+                elif known and num and num[-1][1] == "some":
+                    k_ = re.sub(r"^\w+\((\w+)\)$", r"\1", num[-1][2] or "")
+                    ok = val == "%s(%s)" % (OGN, k_)
+                elif known and num and num[-1][1] == "none":
+                    ok = val.startswith("Err(") and "InvalidBackref" in val
+                else:
+                    ok = False
+            if not ok:
+                bad = "Step::%s: %s" % (v, p.show()[:200])
+                break
+        if bad:
+            break
+    if bad:
+        run.violation(fam, label, "steps", H.where(fn), "Expander::check: every step kind must be judged (named reference must exist or be a valid number; malformed reference is an error); %s" % bad)
     run.ok(fam, label, H.where(fn), n, "numeric reference: 0 | (no named groups & < captures_len); named reference must exist; malformed => Err")
 
 
@@ -124,9 +219,28 @@ def scanner_shape(run, ctx):
         ce = H.canon(es["body"])
         X = es["params"][1].get("name")
         n += 1
-        want = "if %s.contains(self.sub_char) {let quoted = String::with_capacity((2 * self.sub_char.len_utf8())); quoted.push(self.sub_char); quoted.push(self.sub_char); Cow::Owned(%s.replace(self.sub_char,quoted))} else {Cow::Borrowed(%s)}" % (X, X, X)
-        if ce.replace("let mut quoted", "let quoted") != want:
-            run.violation(fam, label, "escape", H.where(es), "Expander::escape must double every substitution character (the inverse of the `doubled` scanner case) and borrow otherwise, found %s" % ce[:200])
+        seen = set()
+        bad = None
+        for p in S.paths_of(es["body"]):
+            v = S.ret_value(p)
+            if v is None:
+                continue
+            has = [ev.b for ev in p.events if ev.kind == "cond" and ev.a == "%s.contains(self.sub_char)" % X]
+            if not has:
+                bad = "no test whether the text contains the substitution character"
+                break
+            seen.add(bool(has[-1]))
+            if not has[-1]:
+                if not H.pat_match("{*c}Borrowed(%s)" % X, v):
+                    bad = "text without the substitution character must be borrowed (found %s)" % v
+            else:
+                m = H.pat_match("{*c}Owned(%s.replace(self.sub_char,{q}))" % X, v)
+                pushes = [ev.a for ev in p.events if ev.kind == "call" and m and ev.a == "%s.push(self.sub_char)" % m.group("q")]
+                others = [ev.a for ev in p.events if ev.kind == "call" and m and ev.a.startswith("%s.push" % m.group("q")) and ev.a not in pushes]
+                if not m or len(pushes) != 2 or others:
+                    bad = "every substitution character must be replaced by exactly two of them (found %s with pushes %s)" % (v, pushes + others)
+        if bad or seen != {True, False}:
+            run.violation(fam, label, "escape", H.where(es), "Expander::escape must double every substitution character (the inverse of the `doubled` scanner case) and borrow otherwise: %s; found %s" % (bad or "missing outcome", ce[:200]))
     run.ok(fam, label, H.where(fn), n, "scanner alternatives in documented order; escape doubles sub_char")
 
 
